@@ -45,7 +45,7 @@ def digest (out : String) : List String :=
     let body := if s.startsWith "0x" then (s.drop 2).toString else s
     if !body.isEmpty && body.toList.all (fun c => c.isDigit || ('A' ≤ c && c ≤ 'F')) then some s else none
 
-def handleL4Core (head srcE inE : String) (expect : Option String) (ans : String) : Verdict :=
+def handleL4Core (strict : Bool) (head srcE inE : String) (expect : Option String) (ans : String) : Verdict :=
     match words head, pctDecode srcE.trimAscii.toString, pctDecode inE.trimAscii.toString with
     | ["cli", flag], some src, some inp =>
       if ans.startsWith "NONDET" then
@@ -77,7 +77,7 @@ def handleL4Core (head srcE inE : String) (expect : Option String) (ans : String
       -- is a violation with this request as the failing input
       -- a difference in wording only (same exit status, trace, final state and the same numbers in the same
       -- order in the output) is a broken tie, not a failing input
-      let sameDigest := fieldOf ans "exit" == fieldOf model "exit" && fieldOf ans "trace" == fieldOf model "trace"
+      let sameDigest := !strict && fieldOf ans "exit" == fieldOf model "exit" && fieldOf ans "trace" == fieldOf model "trace"
         && fieldOf ans "regs" == fieldOf model "regs" && fieldOf ans "mem" == fieldOf model "mem" && digest realOut == digest r.stdout
       -- an expectation stated by the generator from the property itself (independent of model and grammar)
       let expectOk := match expect with
@@ -91,13 +91,13 @@ def handleL4Core (head srcE inE : String) (expect : Option String) (ans : String
         nontrivial := !r.diag && r.trace.length > 1 }
     | _, _, _ => bad
 
-def handleL4 (req ans : String) : Verdict :=
+def handleL4 (strict : Bool) (req ans : String) : Verdict :=
   match req.splitOn " | " with
-  | [head, srcE, inE] => handleL4Core head srcE inE none ans
+  | [head, srcE, inE] => handleL4Core strict head srcE inE none ans
   | [head, srcE, inE, expE] =>
     if expE.startsWith "expect=" then
       match pctDecode (expE.drop 7).toString.trimAscii.toString with
-      | some e => handleL4Core head srcE inE (some e) ans
+      | some e => handleL4Core strict head srcE inE (some e) ans
       | none => bad
     else bad
   | _ => bad
